@@ -386,7 +386,10 @@ impl RsPipeline {
             gen: root.join(format!("gen_{tag}")),
             target: match std::env::var("VERIF_RSBIND_TARGET") {
                 Ok(s) if !s.is_empty() => PathBuf::from(s),
-                _ => root.join("target"),
+                // shard 0 uses the directory `./check setup` pre-builds; further workers keep their own (their
+                // first round compiles candid and serde once)
+                _ if tag.ends_with('0') && tag.len() == 2 => root.join("target"),
+                _ => root.join(format!("target_{tag}")),
             },
             repo: PathBuf::from(std::env::var("VERIF_REPO").unwrap_or_else(|_| "/repo".to_string())),
         }
